@@ -1152,8 +1152,35 @@ func (t *Translator) invEnv(st *State, li *loopInfo) *Env {
 		if li.entry != nil {
 			env.pre = li.entry.heap
 		}
+		// a loop nested in the only map-range loop of the function: seen(k) speaks about the keys that loop has visited
+		if env.seen == "" {
+			if only := t.onlyRange(); only != nil && t.rangeOfNext[li.header] == nil {
+				if sv, ok := st.iters[only]; ok {
+					env.seen = sv
+					if mt, isMap := only.X.Type().Underlying().(*types.Map); isMap {
+						env.seenKey = &SType{Go: mt.Key()}
+					}
+				}
+			}
+		}
 	}
 	return env
+}
+
+// onlyRange returns the map-range of the function if there is exactly one, else nil
+func (t *Translator) onlyRange() *ssa.Range {
+	var only *ssa.Range
+	cnt := 0
+	for _, r := range t.rangeOfNext {
+		if r != nil && r != only {
+			only = r
+			cnt++
+		}
+	}
+	if cnt == 1 {
+		return only
+	}
+	return nil
 }
 
 func (t *Translator) enterLoop(li *loopInfo, ins []edgeIn) *State {
